@@ -4,13 +4,15 @@
    [vok]/[vcmp] stand for NewVersion / Compare; where the Go code reads fields of a parsed
    version (v.major, v.stability, v.isDev ...) the model calls Version.parse_core. *)
 From Verif.Base Require Import Bytes GoNum Ord.
+From Verif.Gen Require Operators.
 From Verif.Eco Require Import RangeCore.
 From Verif.Eco.Composer Require Import Version.
 Local Open Scope Z_scope.
 
 (* operators := []string{">=", "<=", "!=", "<>", "==", ">", "<", "="}  (source order) *)
+(* the list is generated from the Go source on every run (tools/gen -> Gen/Operators.v) *)
 Definition composer_ops : list bytes :=
-  [ $">="; $"<="; $"!="; $"<>"; $"=="; $">"; $"<"; $"=" ].
+  Eval cbv delta [Verif.Gen.Operators.composer_ops] in Verif.Gen.Operators.composer_ops.
 
 (* normalizeOperator followed by the switch in matches *)
 Definition sem_op (op : bytes) : cop :=
